@@ -206,6 +206,10 @@ def op_report(c):
                     with open(c["path"], "w") as f:
                         f.write(c["text"])
                     games = cr.read_dict_from_file(c["path"])
+                if c.get("stale_out"):
+                    # a report of an earlier, bigger run under the name this run's report must get
+                    with open(os.path.join("outputs", c["stale_out"]), "w") as f:
+                        f.write("stale report of an earlier run\n" * 500)
                 res = cr.run_games(games)
                 # what the batch run produced, before the writer gets a chance to touch it
                 snap = copy.deepcopy(res)
